@@ -504,6 +504,19 @@ class BaseCurve(Intface_BaseCurve):
         if newknotvector == self.knotvector:
             return
         if self.ctrlpoints is None:
+            if self.weights is not None:
+                # The weights are the coefficients of the weight function
+                # They follow the knotvector like control points do
+                temp_curve = self.__class__(self.knotvector, self.weights)
+                temp_curve.update(newknotvector, tolerance, nodes)
+                oldknotvector = self.__knotvector
+                self.__knotvector = newknotvector
+                try:
+                    self.weights = temp_curve.ctrlpoints
+                except ValueError:
+                    self.__knotvector = oldknotvector
+                    raise
+                return
             self.__knotvector = newknotvector
             return
         if self.knotvector.limits != newknotvector.limits:
@@ -898,7 +911,7 @@ class Curve(BaseCurve):
         """
         self.degree_clean(tolerance=tolerance)
         self.knot_clean(tolerance=tolerance)
-        if self.weights is None:
+        if self.weights is None or self.ctrlpoints is None:
             return
         # Try to reduce to spline
         knotvector = tuple(self.knotvector)
